@@ -12,6 +12,8 @@ claimed = set()
 for p in sorted(glob.glob(os.path.join(here, 'checks', 'C*.json'))):
     frag = json.load(open(p))
     pid = frag['property_id']
+    if frag.get('ready') is False:
+        continue
     claimed.add(pid)
     checks.append({
         'property_id': pid,
@@ -49,4 +51,10 @@ manifest = {
     'notes': 'See DESIGN.md. KNOWN_FINDINGS.json lists recorded genuine defects and fixed ones. Seeded property-breaking changes used to validate the checks are under seeded/.',
 }
 json.dump(manifest, open(os.path.join(here, 'MANIFEST.json'), 'w'), indent=1)
+kf = {'findings': [], 'fixed': []}
+for p in sorted(glob.glob(os.path.join(here, 'findings', 'C*.json'))):
+    d = json.load(open(p))
+    kf['findings'] += d.get('findings', [])
+    kf['fixed'] += d.get('fixed', [])
+json.dump(kf, open(os.path.join(here, 'KNOWN_FINDINGS.json'), 'w'), indent=1)
 print(f'{len(checks)} checks, {len(na)} unclaimed')
